@@ -486,6 +486,11 @@ def getitem(it, obj, idx):
             return _sym_index(it, obj, idx)
         return obj[norm_index(it, idx, len(obj))]
     if isinstance(obj, dict):
+        if type(obj) is not dict and type(obj).__name__ != "OrderedDict" and not is_symbolic(idx) and not is_symbolic(obj):
+            try:
+                return obj[idx]  # a dict subclass with its own __getitem__ (e.g. the AttrDict maps)
+            except Exception as e:  # noqa: BLE001
+                raise PyRaise(e)
         return dict_get(it, obj, idx, raise_=True)
     if isinstance(obj, SObj) or _user_method(it, obj, "__getitem__"):
         um = _user_method(it, obj, "__getitem__")
